@@ -358,13 +358,32 @@ def standin_qudit_circuits(tier, seed):
                 fails.append(dict(args=dict(transformer=name, circuit=repr(circ)), failed="meaning-changed", clause=f"{name} changed the meaning of a circuit on qutrits"))
         if len({f["args"]["transformer"] for f in fails}) >= 3:
             break
+    # mid-circuit measurements of qudits (inverted or not) feeding a classical control: deferring them keeps the record distribution
+    for it in range(12 if tier == "quick" else 150):
+        pre = [rng.choice([X3(t0), X3(t0) ** 2, F3(t0), Z3(t0)]) for _ in range(rng.randrange(1, 3))]
+        mask = rng.choice([(), (True,), (False,)])
+        mid = cirq.measure(t0, key="m", invert_mask=mask) if rng.random() < 0.7 else cirq.measure(t0, b, key="m", invert_mask=rng.choice([(True, True), (False, True), (True,)]))
+        circ = cirq.Circuit(cirq.H(b) if rng.random() < 0.5 else [], pre, mid, cirq.X(b).with_classical_controls("m"), rng.choice(pool[:8]), cirq.measure(b, key="k"), strategy=cirq.InsertStrategy.NEW)
+        cases += 1
+        try:
+            out = cirq.defer_measurements(circ)
+        except Exception as ex:
+            fails.append(dict(args=dict(transformer="defer_measurements", circuit=repr(circ)), failed="raised-on-qudits", clause=f"defer_measurements raised {type(ex).__name__}: {ex} on a circuit with a mid-circuit qudit measurement"))
+            continue
+        try:
+            d_in = refsim.ref_distribution(circ, sorted(circ.all_qubits()))
+            d_out = refsim.ref_distribution(out, sorted(out.all_qubits(), key=repr))
+        except (NotImplementedError, RuntimeError):
+            continue
+        if not refsim.dist_close(d_in, d_out, atol=1e-6):
+            fails.append(dict(args=dict(transformer="defer_measurements", circuit=repr(circ)), failed="meaning-changed", clause="defer_measurements changed the joint distribution of the records of a circuit on qutrits"))
     seen, uniq = set(), []
     for f in fails:
         if f["args"]["transformer"] not in seen:
             seen.add(f["args"]["transformer"])
             uniq.append(f)
     return dict(function=F + "/*[shipped transformers on qudit circuits]", case="qudit-circuits",
-                bound="seeded circuits of 2-5 operations on two qutrits and a qubit (shift / clock powers, Fourier matrix gate, qutrit-controlled qubit gates), with and without measurements, x all transformer configurations",
+                bound="seeded circuits of 2-5 operations on two qutrits and a qubit (shift / clock powers, Fourier matrix gate, qutrit-controlled qubit gates), with and without measurements, x all transformer configurations; deferred mid-circuit qudit measurements (inverted, joint with a qubit) feeding classical controls",
                 cases=cases, distinct=cases, failures=len(fails), exhaustive=False, _fails=uniq[:3])
 standin_qudit_circuits.prop = "C06"
 STANDINS.append(standin_qudit_circuits)
